@@ -727,3 +727,36 @@ Fixpoint sync_n (cfg : tcfg) (pcn parent : N) (inps : list sin) (s : sst) : sst 
   | [] => s
   | i :: r => sync_n cfg pcn parent r (sr_st (sync_step cfg pcn parent i s))
   end.
+
+(** * A class the child gives up: the revocation requests it sends, and the parent working through them *)
+
+(** keys.rs:375-407 (KeyState::revoke): one request per CERTIFIED key of the class - nothing for a pending key;
+    in RollOld the second one is the stored request of the old key (its class name was fixed at activation,
+    rc.rs:560-638, also from parent_rc_name) *)
+Definition ks_certified (ks : keystate) : list N :=
+  match ks with
+  | KPending _ => []
+  | KActive c | KRollPending _ c => [k_id c]
+  | KRollNew n c => [k_id n; k_id c]
+  | KRollOld c o => [k_id c; k_id o]
+  end.
+
+(** rc.rs:519-527 (ResourceClass::revoke): the requests name the class as the PARENT names it
+    ([d_prcn] = parent_rc_name), not by the name the CA itself gave the class. Used when the parent stops listing
+    the class (certauth.rs:1905-1925), when the class is dropped after a refused certificate (certauth.rs:2042-2068)
+    and when the parent is removed (certauth.rs:1756-1769). (class name in the request, key) *)
+Definition class_revocations (x : dclass) : list (N * N) := map (fun k => (d_prcn x, k)) (ks_certified (d_keys x)).
+
+(** manager.rs:1816-1850 at a parent in the same instance: the requests one by one through the child_revoke_key
+    command of the parent; the first one that is refused ends the (best-effort) exchange *)
+Fixpoint revoke_all (s : dca) (h : N) (reqs : list (N * N)) : outcome dca :=
+  match reqs with
+  | [] => Done s
+  | (crcn, ki) :: r => match dprocess s (XRevoke h crcn ki) with
+                       | Done s1 => revoke_all s1 h r
+                       | o => o
+                       end
+  end.
+
+(** the class holds a certificate, published or suspended, for the key *)
+Definition holds_key (dc : dclass) (k : N) : bool := amem k (d_issued dc) || amem k (d_susp dc).
